@@ -103,11 +103,12 @@ inductive Op where
   | flush (i : Nat)
   | close (i : Nat)
   | free (i : Nat)
+  | freeFail (i : Nat)                             -- `free()` while the controller's `sdram_free` raises
   deriving Repr, DecidableEq
 
 def Op.target : Op → Nat
   | .seek i _ _ | .read i _ | .write i _ | .readFail i _ | .writeFail i _ _ | .slice i _ _ _ | .index i | .tell i
-  | .address i | .len i | .flush i | .close i | .free i => i
+  | .address i | .len i | .flush i | .close i | .free i | .freeFail i => i
 
 /-! ## The code -/
 
@@ -253,6 +254,13 @@ def doFree (w : World) (i : Nat) (v : View) : World × Out :=
   else if w.freed then fail w .osError
   else ({ w with freed := true }, ⟨.none, false, some (.free v.start w.x w.y)⟩)
 
+/-- `free()` when `sdram_free` raises: the code calls the controller first and sets `_freed`
+afterwards, so the allocation stays usable (and can be freed again) -/
+def doFreeFail (w : World) (i : Nat) (v : View) : World × Out :=
+  if i ≠ 0 then fail w .attributeError
+  else if w.freed then fail w .osError
+  else (w, ⟨.err .transferError, false, some (.free v.start w.x w.y)⟩)
+
 def stepView (w : World) (v : View) : Op → World × Out
   | .seek i n wh => doSeek w i v n wh
   | .read i n => doRead w i v n
@@ -267,6 +275,7 @@ def stepView (w : World) (v : View) : Op → World × Out
   | .flush _ => if dead w v then fail w .osError else done w .none
   | .close i => doClose w i v
   | .free i => doFree w i v
+  | .freeFail i => doFreeFail w i v
 
 def step (w : World) (op : Op) : World × Out :=
   match w.views[op.target]? with
@@ -488,6 +497,11 @@ def viewInWindow (o : Obs) : Bool :=
 def winMem (base : Int) (l : List Nat) : Mem :=
   fun a => if base ≤ a then l.getD (a - base).toNat 0 else 0
 
+/-- the file a view presents when its range lies inside the observed window: the same bytes as
+`absFile (winMem base before) v`, cut out of the list directly (linear, for views of 65,537 bytes and more) -/
+def absFileWin (base : Int) (before : List Nat) (v : View) : File :=
+  { data := (before.drop (v.start - base).toNat).take v.len.toNat, pos := v.offset }
+
 /-- names of the clauses of the property the observed call violates (`[]` = none) -/
 def checkObs (o : Obs) : List String :=
   let v := o.pre
@@ -511,7 +525,8 @@ def checkObs (o : Obs) : List String :=
          then [] else ["dead"])
       else
         -- 3. bounded file
-        match specIO v (absFile (winMem o.base o.before) v) o.op with
+        match specIO v (if viewInWindow o then absFileWin o.base o.before v
+                        else absFile (winMem o.base o.before) v) o.op with
         | none => []
         | some s =>
           (if o.out.ret = s.ret then [] else ["file-result"]) ++
@@ -544,6 +559,11 @@ def checkObs (o : Obs) : List String :=
           (if o.post = v ∧ o.after = o.before ∧ o.out.access = none then [] else ["slice-effect"])
         else []
       | .len _ => if o.out.ret = .int v.len ∧ o.post = v ∧ o.after = o.before then [] else ["file-result"]
+      | .freeFail _ =>
+        -- a `free()` whose `sdram_free` failed frees nothing: state after = state before
+        if o.out.ret = .err .transferError then
+          (if o.post = v ∧ o.postFreed = o.preFreed ∧ o.after = o.before then [] else ["failed-free"])
+        else []
       | _ => []
   c1 ++ c2 ++ c3
 
@@ -579,7 +599,10 @@ def opOfJson (j : Json) : R Op := do
   | "len" => pure (.len i)
   | "flush" => pure (.flush i)
   | "close" => pure (.close i)
-  | "free" => pure (.free i)
+  | "free" =>
+    match ← opt j "fault" asInt with
+    | none => pure (.free i)
+    | some _ => pure (.freeFail i)
   | _ => .error s!"unknown op kind {k}"
 
 def errName : Err → String
@@ -676,6 +699,10 @@ def handle (op : String) (j : Json) : R Json := do
     let mut res : List Json := []
     for s in steps do
       let after ← nats s "win"
+      -- `wb`: the window just before this call when another owner's call changed it in between
+      match ← opt s "wb" (fun a => do (← asArr a).mapM asNat) with
+      | some b => before := b
+      | none => pure ()
       let o : Obs := {
         x := x, y := y, isRoot := ← bool s "root", pre := ← viewOfJson (← field s "pre"),
         preFreed := ← bool s "freed", op := ← opOfJson (← field s "op"), out := ← outOfJson (← field s "out"),
@@ -690,7 +717,12 @@ def handle (op : String) (j : Json) : R Json := do
       | some (abase, size) =>
         let r ← viewOfJson (← field j "root")
         let spec := (allocAsFilelike x y abase size (fun _ => 0)).views
-        pure (if spec = [r] then [] else ["confinement"]) : R (List String))
+        -- ... and the allocation must have been made on the chip the view accesses
+        let chipOk ← (do
+          match ← opt j "alloc_xy" (fun a => asPair a asNat asNat) with
+          | none => pure true
+          | some (ax, ay) => pure (ax == x && ay == y) : R Bool)
+        pure (if spec = [r] ∧ chipOk then [] else ["confinement"]) : R (List String))
     pure (Json.mkObj [("fails", jList res), ("root", jList (rootFails.map Json.str))])
   | "orig" =>
     -- the counts the code computed before the fix (for reporting only)
